@@ -113,3 +113,22 @@ def refit_guard_obligations(repo):
         ok = len(body) >= 2 and isinstance(body[0], ast.Assign) and 'self._prepare_data(' in ast.unparse(body[0].value) and 'super().fit(' in ast.unparse(body[1])
         out.append(ob('%s.fit#call.super.fit.reached_before_any_write' % cls, ok, ' ; '.join(ast.unparse(s)[:60] for s in body[:2])))
     return out
+
+
+def carver_defaults_obligations(repo):
+    """C02: `min_freq_mod` defaults to min_freq / 2 exactly when the argument is None (an explicit 0 must be kept).  Decided on the text of BaseCarver.__init__:
+    the only statements mentioning min_freq_mod are  `if min_freq_mod is None: min_freq_mod = min_freq / 2`  and  `self.min_freq_mod = min_freq_mod`."""
+    out = []
+    tree = ast.parse(open(repo.rstrip('/') + '/AutoCarver/carvers/base_carver.py').read())
+    fn = _func(tree, 'BaseCarver', '__init__')
+    if fn is None: return [ob('BaseCarver.__init__#post.min_freq_mod_default', False, '__init__ not found')]
+    guard_ok = store_ok = False; others = []
+    for st in fn.body:
+        txt = ast.unparse(st)
+        if 'min_freq_mod' not in txt or isinstance(st, ast.Expr) and isinstance(st.value, ast.Constant): continue
+        if isinstance(st, ast.If) and ast.unparse(st.test) == 'min_freq_mod is None' and len(st.body) == 1 and not st.orelse and ast.unparse(st.body[0]).replace(' ', '') == 'min_freq_mod=min_freq/2': guard_ok = True
+        elif isinstance(st, ast.Assign) and txt.replace(' ', '') == 'self.min_freq_mod=min_freq_mod': store_ok = True
+        elif isinstance(st, ast.Expr) and isinstance(st.value, ast.Call) and 'super().__init__' in txt: others.append('forwarded to super().__init__')
+        else: others.append(txt[:60])
+    out.append(ob('BaseCarver.__init__#post.min_freq_mod_is_half_min_freq_iff_None', guard_ok and store_ok and not [o for o in others if not o.startswith('forwarded')], 'guard=%s store=%s other statements=%r' % (guard_ok, store_ok, others)))
+    return out
